@@ -31,3 +31,6 @@ pub(crate) fn run_ready<F: Future>(fut: F) -> F::Output {
         }
     }
 }
+
+/// stub for `futures_lite::future::block_on<T, F: Future<Output = T>>` (Kani ICEs on the real one): one poll, as `run_ready`
+pub(crate) fn stub_block_on<T, F: Future<Output = T>>(fut: F) -> T { run_ready(fut) }
